@@ -35,6 +35,13 @@ class RegModel:
     def note_double(self, obj):
         self.ambiguous.add(id(obj))
 
+    def refresh(self, obj):
+        """an object that is left with exactly one registration, under the id it was given last (the one stored on it), is an ordinary
+        registered object again"""
+        ids = self.ids_of(obj)
+        if len(ids) == 1 and ids[0] == self.last.get(id(obj)):
+            self.ambiguous.discard(id(obj))
+
 
 def deref(e):
     """the model never holds a strong reference to a weakly registered object"""
@@ -67,7 +74,18 @@ def setup_env(P, servertype):
 def gen_history(r, n):
     steps = []
     idpool = ["alpha", "beta", "gamma", "Pyro.Daemon", "hub", "", "obj_fixed"]
-    if r.random() < 0.4:
+    if r.random() < 0.15:
+        # forced re-registration chain: an object moves to a new id, its old alias is taken over (or dropped), then the object is used
+        a, b = r.choice([(0, 1), (1, 3), (2, 4), (3, 2)])
+        ser = r.choice(fixture.SERIALIZERS)
+        steps.append(("register", a, "alpha", False, False))
+        steps.append(("register", a, "beta", True, False))
+        steps.append(r.choice([("register", b, "alpha", True, False), ("unregister_id", "alpha")]))
+        steps.append(("urifor", a))
+        steps.append(("give", a, ser, False))
+        steps.append(("call", "beta"))
+        steps.append(("listing",))
+    elif r.random() < 0.4:
         # interaction prefix: two objects of ONE class (weakly / strongly / under generated ids), one of them leaves, the other one is returned
         same = r.choice([(0, 1), (1, 3), (3, 0), (2, 4), (4, 2)])
         a, b = same
@@ -125,7 +143,7 @@ def run_history(fx, pool, hist, rec, hh):
         return False
     try:
         for step, st in enumerate(hist):
-            obj = arg = e = cur = res = p = u = None      # the harness itself must not keep weakly registered objects alive
+            obj = arg = e = cur = res = p = u = displaced = None      # the harness itself must not keep weakly registered objects alive
             kind = st[0]
             rec.case((hh, step), nontrivial=True, sample={"step": [repr(x) for x in st], "registered": sorted(model.ids)} if rec.evaluations % 700 == 9 else None)
             if kind == "register":
@@ -169,13 +187,23 @@ def run_history(fx, pool, hist, rec, hh):
                     return fail("registered-under-other-id", "asked for id %r, uri says %r" % (oid, eff), step)
                 if not oid:
                     gen_ids.append(eff)
-                if model.ids_of(obj):
-                    model.note_double(obj)
-                if eff in model.ids and deref(model.ids[eff]) is not None and deref(model.ids[eff]) is not obj:
-                    model.note_double(deref(model.ids[eff]))      # displaced by a forced registration: it keeps a stale id attribute; undefined from here on
+                displaced = deref(model.ids[eff]) if eff in model.ids else None
+                if displaced is obj:
+                    displaced = None
+                if displaced is not None:
+                    # displaced by a forced registration: if that was the id stored on it, it keeps a stale id attribute (undefined from here
+                    # on); if it was an older alias, the object simply has one registration less
+                    model.note_double(displaced)
                 import weakref as _wr
                 model.ids[eff] = {"obj": _wr.ref(obj) if weak else obj, "weak": weak}
                 model.last[id(obj)] = eff
+                if len(model.ids_of(obj)) > 1:
+                    model.note_double(obj)
+                else:
+                    model.refresh(obj)
+                if displaced is not None:
+                    model.refresh(displaced)
+                displaced = None
             elif kind == "unregister_obj":
                 obj = obj_of(st[1])
                 ids_before = model.ids_of(obj)
@@ -232,7 +260,11 @@ def run_history(fx, pool, hist, rec, hh):
                 if got is not None:
                     return fail("unregister-raises", "unregister(%r) raised %s" % (oid, got), step)
                 if oid not in ("Pyro.Daemon", "hub"):
-                    model.ids.pop(oid, None)
+                    e = model.ids.pop(oid, None)
+                    cur = deref(e) if e is not None else None
+                    if cur is not None:
+                        model.refresh(cur)       # lost an older alias only: an ordinary registered object again
+                    e = cur = None
             elif kind == "urifor":
                 x = st[1]
                 if isinstance(x, (int,)) or x in ("A", "B"):
